@@ -184,6 +184,7 @@ Section Mono.
     destruct n as [ | |c|bs|bs|cs|l0|a b| | |sol ml|inv ui|id c nm|g ic|b|alts icase|ng bw sg' eg' c|body mn mx gr egs ege|body mn mx gr];
       cbn [ir_results leaf_code] in Hr; try (eapply okdir_cond; eauto; fail); try discriminate.
     - inversion Hr; subst. constructor; [apply dir_refl|constructor].
+    - inversion Hr; subst. constructor; [apply dir_refl|constructor].
     - eapply okdir_results_of; eauto.
     - eapply okdir_results_of; eauto.
     - destruct (emit_byte_set bs); [discriminate|eapply okdir_results_of; eauto].
